@@ -649,3 +649,41 @@ def run(F, rep, tier):
     rep.analysed = {"operator_families": len(families), "dispatch_tables": len(disp), "function_structs": len(S), "kernels_normalised": len([k for k in kernels.values() if not isinstance(k, Unrecognised)])}
     from rules.k2_targets import run_k2
     run_k2(F, rep, "C01", "C01-R7")
+    run_r9(F, rep)
+
+
+OPS = {"Add": "+", "Sub": "-", "Mul": "*", "Div": "/", "Rem": "%", "AddAssign": "+=", "SubAssign": "-=", "MulAssign": "*=", "DivAssign": "/=", "Neg": "-",
+       "PartialEq": "==", "PartialOrd": "partial_cmp", "Ord": "cmp", "Eq": None}
+
+
+def run_r9(F, rep):
+    """C01-R9: the exact element kind (R64) takes its operators from the wrapped exact number"""
+    rep.rule("C01-R9", "scalar semantics of the exact kind: every arithmetic / comparison operator impl of the newtype R64 applies that same operator to the wrapped Rational64 of its "
+                       "operand(s) (`self.0 op other.0`, derived impls included) and calls nothing else - a detour through f64 (to_f64, as f64) makes rationals closer than f64 resolution "
+                       "compare or combine like floats in every kernel, shape and broadcast form at once")
+    n = 0
+    for it in F.syn("mech_core.lib"):
+        if it["k"] != "method" or (it.get("self") or "").replace(" ", "") != "R64" or not it.get("trait") or not it.get("body"):
+            continue
+        tr = re.sub(r"<.*$", "", it["trait"]).split("::")[-1]
+        if tr not in OPS or OPS[tr] is None:
+            continue
+        n += 1
+        body = it["body"]
+        calls = [m[2] for m in find(body, "mcall")] + [(path_of(c[1]) or "?").split("::")[-1] for c in find(body, "call")]
+        allowed = {it["name"], "R64", "Some"}
+        extra = sorted(c for c in calls if c not in allowed)
+        casts = [render(c)[:30] for c in find(body, "cast")]
+        # operands: only `.0` of self / other
+        fields = {render(f) for f in find(body, "field")}
+        ok_fields = fields <= {"self.0", "other.0", "rhs.0"}
+        sym = OPS[tr]
+        has_op = sym in ("partial_cmp", "cmp") or any((b[1] == sym) for b in find(body, "bin")) or (tr == "Neg" and any(u[1] == "-" for u in find(body, "un")))
+        if sym in ("partial_cmp", "cmp"):
+            has_op = it["name"] in calls
+        ok = not extra and not casts and ok_fields and has_op
+        rep.check(ok, "C01-R9", "R64:%s::%s" % (tr, it["name"]) if ok else "R64:%s::%s:%s" % (tr, it["name"], re.sub(r"\W+", "-", ("calls-" + ",".join(extra)) if extra else ("casts" if casts else "not-a-delegation"))[:40]),
+                  "R64's %s::%s is `%s`: it does not simply apply %s to the wrapped rationals (calls %s, casts %s) - exact rational %s is replaced by something else for every matrix form and kernel" % (
+                      tr, it["name"], render(["block", body])[:80], sym, extra, casts, "ordering" if tr in ("PartialOrd", "Ord") else "arithmetic"),
+                  "R64 (mech_core.lib)", sample={"trait": tr, "body": render(["block", body])[:80]})
+    rep.floor("C01-R9", "operator impls of R64 examined", n, 11)
